@@ -43,36 +43,68 @@ def written_containers(mod: PyModule) -> dict[str, int]:
     return out
 
 
+def _const_false(t: ast.AST) -> bool:
+    if isinstance(t, ast.Constant):
+        return not t.value
+    if isinstance(t, ast.BoolOp) and isinstance(t.op, ast.And):
+        return any(_const_false(v) for v in t.values)
+    if isinstance(t, ast.BoolOp) and isinstance(t.op, ast.Or):
+        return all(_const_false(v) for v in t.values)
+    if isinstance(t, ast.UnaryOp) and isinstance(t.op, ast.Not) and isinstance(t.operand, ast.Constant):
+        return bool(t.operand.value)
+    return False
+
+
+def dead_nodes(fn: ast.AST) -> set[int]:
+    """ids of nodes inside `if <constant false>:` bodies (switched-off code is not behaviour)"""
+    out: set[int] = set()
+    for i in ast.walk(fn):
+        if isinstance(i, ast.If) and _const_false(i.test):
+            for st in i.body:
+                out |= {id(x) for x in ast.walk(st)}
+    return out
+
+
+def _live_walk(fn: ast.AST):
+    dead = dead_nodes(fn)
+    return [n for n in ast.walk(fn) if id(n) not in dead]
+
+
 def _names(e: ast.AST) -> set[str]:
     return {n.id for n in ast.walk(e) if isinstance(n, ast.Name)}
 
 
-def memo_findings(mod: PyModule, fn: ast.FunctionDef, inputs: Iterable[str], memory_dependent: bool = False, _depth: int = 0) -> list[tuple[int, str]]:
+def memo_findings(mod: PyModule, fn: ast.FunctionDef, inputs: Iterable[str], memory_dependent: bool = False, _depth: int = 0,
+                  storage: Iterable[str] = (), persist_in: frozenset | None = None) -> list[tuple[int, str]]:
     """[(line, description)] for memos in `fn` whose key does not cover `inputs` (or any memo when the result also depends on memory).
     Methods of the same class that `fn` calls through `self.` are followed (their own parameters are their inputs)."""
     inputs = tuple(inputs)
-    out: list[tuple[int, str]] = _scalar_memos(mod, fn, inputs, memory_dependent)
+    storage = tuple(storage)       # containers that *are* the machine state being read (the memory itself), not a memo of it
+    # persist_in: names of the functions whose attribute assignments count as "remembered by an earlier call" (the access path
+    # itself); attributes only assigned by configuration methods are wiring, not memos.  None = every method but __init__.
+    out: list[tuple[int, str]] = _scalar_memos(mod, fn, inputs, memory_dependent, storage, persist_in)
     if _depth < 3:
         cls = _class_of(mod, fn)
         if cls is not None:
             meths = {m.name: m for m in cls.body if isinstance(m, (ast.FunctionDef, ast.AsyncFunctionDef))}
-            for c in ast.walk(fn):
+            for c in _live_walk(fn):
                 if isinstance(c, ast.Call) and isinstance(c.func, ast.Attribute) and isinstance(c.func.value, ast.Name) and c.func.value.id == "self" and c.func.attr in meths and meths[c.func.attr] is not fn:
                     h = meths[c.func.attr]
                     hin = tuple(a.arg for a in h.args.args + h.args.kwonlyargs if a.arg != "self")
                     # only helpers that receive (something derived from) the inputs matter
                     if any(isinstance(x, ast.Name) and x.id in inputs for a in list(c.args) + [k.value for k in c.keywords] for x in ast.walk(a)):
-                        for ln, what in memo_findings(mod, h, hin, memory_dependent, _depth + 1):
+                        for ln, what in memo_findings(mod, h, hin, memory_dependent, _depth + 1, storage, persist_in):
                             out.append((ln, what + f" (helper of {fn.name})"))
     for d in fn.decorator_list:
         dd = d.func if isinstance(d, ast.Call) else d
         nm = dd.id if isinstance(dd, ast.Name) else getattr(dd, "attr", "")
         if nm in _CACHE_DECOS:
             out.append((fn.lineno, f"@{nm} on {fn.name}: results are remembered across calls"))
-    conts = written_containers(mod)
+    conts = {k: v for k, v in written_containers(mod).items() if k not in storage}
+    live = _live_walk(fn)
     # local single assignments for key resolution
     defs: dict[str, list[ast.AST]] = {}
-    for n in ast.walk(fn):
+    for n in live:
         if isinstance(n, ast.Assign) and len(n.targets) == 1 and isinstance(n.targets[0], ast.Name):
             defs.setdefault(n.targets[0].id, []).append(n.value)
         if isinstance(n, ast.NamedExpr) and isinstance(n.target, ast.Name):
@@ -89,7 +121,7 @@ def memo_findings(mod: PyModule, fn: ast.FunctionDef, inputs: Iterable[str], mem
         return r
 
     loads: list[tuple[str, ast.AST, ast.AST, int]] = []     # (container, key expr, load node, line)
-    for n in ast.walk(fn):
+    for n in live:
         if isinstance(n, ast.Call) and isinstance(n.func, ast.Attribute) and n.func.attr in ("get", "setdefault", "pop") and n.args and unparse(n.func.value) in conts:
             loads.append((unparse(n.func.value), n.args[0], n, n.lineno))
         if isinstance(n, ast.Subscript) and isinstance(n.ctx, ast.Load) and unparse(n.value) in conts:
@@ -99,7 +131,7 @@ def memo_findings(mod: PyModule, fn: ast.FunctionDef, inputs: Iterable[str], mem
     # names that hold loaded values
     holders: dict[str, tuple] = {}
     for cont, key, node, ln in loads:
-        for a in ast.walk(fn):
+        for a in live:
             tgt = None
             if isinstance(a, ast.Assign) and any(x is node for x in ast.walk(a.value)) and len(a.targets) == 1 and isinstance(a.targets[0], ast.Name):
                 tgt = a.targets[0].id
@@ -107,7 +139,7 @@ def memo_findings(mod: PyModule, fn: ast.FunctionDef, inputs: Iterable[str], mem
                 tgt = a.target.id
             if tgt:
                 holders[tgt] = (cont, key, ln)
-    rets = [r for r in ast.walk(fn) if isinstance(r, ast.Return) and r.value is not None]
+    rets = [r for r in live if isinstance(r, (ast.Return, ast.Yield)) and r.value is not None]
     for cont, key, node, ln in loads:
         reach = any(any(x is node for x in ast.walk(r.value)) for r in rets) or any(h in _names(r.value) for r in rets for h, v in holders.items() if v[0] == cont and v[2] == ln)
         if not reach:
@@ -250,10 +282,10 @@ def _class_of(mod: PyModule, fn: ast.AST) -> ast.ClassDef | None:
     return None
 
 
-def _persistent_attrs(mod: PyModule) -> dict[str, int]:
+def _persistent_attrs(mod: PyModule, only_in: frozenset | None = None) -> dict[str, int]:
     """'self.X' -> line, for attributes assigned in some method other than __init__ (state that outlives a call and changes)."""
     out: dict[str, int] = {}
-    for f in [x for x in ast.walk(mod.tree) if isinstance(x, (ast.FunctionDef, ast.AsyncFunctionDef)) and x.name != "__init__"]:
+    for f in [x for x in ast.walk(mod.tree) if isinstance(x, (ast.FunctionDef, ast.AsyncFunctionDef)) and x.name != "__init__" and (only_in is None or x.name in only_in)]:
         for n in ast.walk(f):
             ts = n.targets if isinstance(n, ast.Assign) else [n.target] if isinstance(n, (ast.AnnAssign, ast.AugAssign)) else []
             for t in ts:
@@ -264,16 +296,17 @@ def _persistent_attrs(mod: PyModule) -> dict[str, int]:
     return out
 
 
-def _scalar_memos(mod: PyModule, fn: ast.FunctionDef, inputs: tuple, memory_dependent: bool) -> list[tuple[int, str]]:
+def _scalar_memos(mod: PyModule, fn: ast.FunctionDef, inputs: tuple, memory_dependent: bool, storage: tuple = (), persist_in: frozenset | None = None) -> list[tuple[int, str]]:
     """`return <something read from self.X>` where X is re-assigned by methods: the value was computed by an earlier call.  It is the
     answer to *this* call only if the path to the return compares the remembered key with every input."""
-    persist = _persistent_attrs(mod)
+    persist = {k: v for k, v in _persistent_attrs(mod, persist_in).items() if k not in storage}
     parent: dict[int, ast.AST] = {}
     for p in ast.walk(fn):
         for c in ast.iter_child_nodes(p):
             parent[id(c)] = p
+    live = _live_walk(fn)
     defs: dict[str, list[ast.AST]] = {}
-    for n in ast.walk(fn):
+    for n in live:
         if isinstance(n, ast.Assign) and len(n.targets) == 1 and isinstance(n.targets[0], ast.Name):
             defs.setdefault(n.targets[0].id, []).append(n.value)
         if isinstance(n, ast.NamedExpr) and isinstance(n.target, ast.Name):
@@ -308,7 +341,7 @@ def _scalar_memos(mod: PyModule, fn: ast.FunctionDef, inputs: tuple, memory_depe
         return r
 
     out: list[tuple[int, str]] = []
-    for ret in [r for r in ast.walk(fn) if isinstance(r, ast.Return) and r.value is not None]:
+    for ret in [r for r in live if isinstance(r, (ast.Return, ast.Yield)) and r.value is not None]:
         # returns nested in inner defs belong to those
         anc = parent.get(id(ret))
         inner = False
@@ -338,3 +371,22 @@ def _scalar_memos(mod: PyModule, fn: ast.FunctionDef, inputs: tuple, memory_depe
         elif missing:
             out.append((ret.lineno, f"{fn.name} returns a value remembered in `{src}` by an earlier call without comparing the remembered key with {missing}: a call with other {'/'.join(missing)} gets an earlier call's answer"))
     return out
+
+
+def method_closure(mod: PyModule, cls_name: str, entries: Iterable[str]) -> frozenset:
+    """names of the methods of `cls_name` reachable from `entries` through `self.m(...)` calls (dead `if False:` code excluded)"""
+    cls = next((c for c in ast.walk(mod.tree) if isinstance(c, ast.ClassDef) and c.name == cls_name), None)
+    if cls is None:
+        return frozenset()
+    meths = {m.name: m for m in cls.body if isinstance(m, (ast.FunctionDef, ast.AsyncFunctionDef))}
+    seen: set[str] = set()
+    todo = [e for e in entries if e in meths]
+    while todo:
+        nm = todo.pop()
+        if nm in seen:
+            continue
+        seen.add(nm)
+        for c in _live_walk(meths[nm]):
+            if isinstance(c, ast.Call) and isinstance(c.func, ast.Attribute) and isinstance(c.func.value, ast.Name) and c.func.value.id == "self" and c.func.attr in meths:
+                todo.append(c.func.attr)
+    return frozenset(seen)
